@@ -115,6 +115,11 @@ class RaggedSys(System):
                                          indextype=self.indextype)
         else:
             items = [self.item('s1'), self.item('sE' if route == 'asE' else 's2')]
+            if route == 'asS' and self.atom:
+                # the first subarray is a strided view that is neither C- nor F-contiguous
+                big = payload.values('I', 2, self.atom[:-1] + (2 * self.atom[-1],), self.dtype)
+                view = big[..., ::2]
+                items[0] = (view, np.ascontiguousarray(view))
             subs = [i[1] for i in items]
             objs = [i[0] for i in items]
             if route == 'gen':
